@@ -60,6 +60,11 @@ func toSlice(array interface{}) (slice interface{}) {
 	sliceType := reflect.SliceOf(t.Elem())
 	sliceStruct := unpackEFace(&slice)
 	sliceStruct.typ = reflect2.PtrOf(sliceType)
+	if reflect2.Type2(t).LikePtr() {
+		// a one-element array of a pointer-shaped type is the interface word
+		// itself, not the address of the array: box it first
+		array = toPtr(t, array)
+	}
 	sliceStruct.ptr = unsafeToSlice(array, t.Len())
 	return
 }
